@@ -34,7 +34,10 @@ RULE = ("signal length N in 2..65 (odd and even, every length hit in the thoroug
         "buffered FunctionSignals are compared with filtering on the extended grid; plain Signal / GaussianNoise / "
         "EmptySignal objects whose sampling step changes (resample(n), new times and values assigned) after dt, "
         "frequencies, spectrum were read or a first filter was applied are filtered with delay / low-pass / the "
-        "case's response and compared with a fresh Signal of the current times and values")
+        "case's response and compared with a fresh Signal of the current times and values; the SAME response callable (one "
+        "function object, equal bound methods) is registered 2-3 times and interleaved with another filter on one "
+        "FunctionSignal (table to that power; sampled Signal filtered twice for real gains and whole delays); the "
+        "generating FUNCTION of a FunctionSignal returns int64 arrays or Python ints (also times an integer factor 1)")
 LEVEL_TEXT = ("theorems C05_* proved over R/C for every length N>=1, every sampling step dt != 0, every signal and every "
               "response function: the pair-DFT of the model is Mathlib's ZMod.dft (bridge lemma), hence linear, "
               "homogeneous, identity for the unit response, offset-free, force_real = Hermitian symmetrisation "
@@ -536,6 +539,99 @@ def _check_case(run, case):
                 j = int(np.argmax(np.abs(rev - got)))
                 fail("stack-order", [j, float(rev[j])], [j, float(got[j])],
                      "the result of a filter chain depends on the order in which the filters were added")
+    if which in ("all", "repeat"):
+        # the SAME response callable (one function object; equal bound methods of one object) registered two or three
+        # times with the same flag on one function-backed signal, also interleaved with another filter: the response
+        # acts as often as it was registered
+        import scipy.fft
+        t = np.array(times, dtype=float)
+        v = np.array(x, dtype=float)
+        freqs = scipy.fft.fftfreq(2 * n, d=dte)
+
+        def tab_of(f_, fr_):
+            if fr_:
+                r_ = np.array(f_(np.abs(freqs)), dtype=complex)
+                return np.where(freqs < 0, np.conj(r_), r_)
+            return np.array(f_(freqs), dtype=complex)
+        h_vec = resp_fn(kind, p1, p2, None)
+        other_vec = resp_fn("rc", 0.4 / dte, 0.0, None)
+
+        class Holder:
+            def __init__(self, f_):
+                self._f = f_
+
+            def response(self, f):
+                return self._f(f)
+        holder = Holder(resp_fn(kind, p1, p2, so))
+        h_same = resp_fn(kind, p1, p2, so)
+        other = resp_fn("rc", 0.4 / dte, 0.0, None)
+        Xp = scipy.fft.fft(np.concatenate((v, np.zeros(n))))
+        for label, regs, power, with_other in (("same function twice", [h_same, h_same], 2, False),
+                                               ("same function three times", [h_same] * 3, 3, False),
+                                               ("equal bound methods twice", [holder.response, holder.response], 2, False),
+                                               ("interleaved with another filter", [h_same, other, h_same], 2, True)):
+            fsig = ps.FunctionSignal(t.copy(), lambda q: np.interp(q, t, v))
+            for r_ in regs:
+                fsig.filter_frequencies(r_, force_real=(fr if r_ is not other else False))
+            got = np.array(fsig.values, dtype=float)
+            tabp = tab_of(h_vec, fr) ** power * (tab_of(other_vec, False) if with_other else 1.0)
+            exp = np.real(scipy.fft.ifft(tabp * Xp))[:n]
+            tolr = 4e-9 * vmax * gain ** power * max(1.0, math.log2(n))
+            if float(np.max(np.abs(got - exp))) > tolr:
+                j = int(np.argmax(np.abs(got - exp)))
+                fail("repeat", [label, j, float(got[j])], [label, j, float(exp[j])],
+                     "a response registered repeatedly on one FunctionSignal (%s) does not act once per registration"
+                     % label)
+                break
+            if power == 2 and not with_other and ((kind == "const" and p2 == 0.0) or (kind == "delay" and "d" in case
+                                                                                    and 2 * case["d"] <= n)):
+                # real gain / causal whole-sample delay: filtering the sampled Signal twice is exactly the same
+                sq = ps.Signal(t.copy(), v.copy())
+                sq.filter_frequencies(h_same, force_real=fr)
+                sq.filter_frequencies(h_same, force_real=fr)
+                if float(np.max(np.abs(np.array(sq.values, dtype=float) - got))) > tolr:
+                    fail("repeat", [label], None, "a FunctionSignal with a response registered twice differs from the "
+                         "sampled Signal filtered twice")
+                    break
+    if which in ("all", "intfunc"):
+        # a function-backed signal whose generating function answers with INTEGERS (int64 array / Python ints from a
+        # scalar-only function), with and without an integer scale factor: same result as the float-valued function
+        t = np.array(times, dtype=float)
+        c0 = n // 2
+        ints = np.round(np.array(x, dtype=float) / vmax * 40).astype(np.int64)
+
+        def f_int_array(q):
+            return ints[np.clip(np.rint((np.asarray(q, dtype=float) - t[0]) / dte).astype(int), 0, n - 1)]
+
+        def f_boxcar(q):
+            if isinstance(q, np.ndarray) and q.ndim > 0:
+                raise TypeError("one time at a time")
+            return 1 if t[max(0, c0 - n // 4)] <= q <= t[min(n - 1, c0 + n // 4)] else 0
+        box = np.array([f_boxcar(float(q)) for q in t], dtype=float)
+        one = lambda f: np.ones(len(f)) if isinstance(f, np.ndarray) else 1.0
+        one.__name__ = "one"
+        for label, func, vals_f in (("int64 array", f_int_array, ints.astype(float)), ("python ints 0/1", f_boxcar, box)):
+            scale_ = float(np.max(np.abs(vals_f))) or 1.0
+            for scaled in (False, True):
+                for resp_name, rf in (("unit response", one), ("the case's response", fn)):
+                    fi = ps.FunctionSignal(t.copy(), func)
+                    if scaled:
+                        fi = fi * 1
+                    fi.filter_frequencies(rf, force_real=fr)
+                    got = np.array(fi.values, dtype=float)
+                    ref = run_filter(ps, t, vals_f, rf, fr)
+                    if len(got) != n or float(np.max(np.abs(got - ref))) > 4e-9 * scale_ * gain * max(1.0, math.log2(n)):
+                        j = int(np.argmax(np.abs(got - ref))) if len(got) == n else 0
+                        fail("intfunc", [label, scaled, resp_name, j, float(got[j])], [j, float(ref[j])],
+                             "a FunctionSignal whose function returns integers (%s%s) is not filtered like the sampled "
+                             "Signal of the same values (%s)" % (label, ", times 1" if scaled else "", resp_name))
+                        break
+                else:
+                    continue
+                break
+            else:
+                continue
+            break
     if which in ("all", "regrid") and cls == "Signal" and n >= 6:
         # the sampling step of a PLAIN signal changes after dt / frequencies were read or a first filter was applied
         # (resample(n), or new times and values assigned): the frequency grid must follow the current step, i.e. the
